@@ -1,7 +1,7 @@
 (* C14 -- statements only; see DESIGN.md section 6 C14.  Theorems are added as the proofs land;
    the witnesses below are evaluated in the kernel on the whole-parser model. *)
 From Coq Require Import String.
-From MdIt Require Import Prims Tables Tree Render Core Dump Dispatch.
+From MdIt Require Import Prims Tables Tree Render Core Dump Dispatch TreeProofs FragProofs.
 Local Open Scope string_scope.
 Local Open Scope list_scope.
 Local Open Scope N_scope.
@@ -21,3 +21,37 @@ Definition tree_of (cfg src : string) : str :=
 Example C14_witness_merged_text :
   tree_of "C" "a * b *c" = bs "0:Root()@0-8{};1:Paragraph()@0-8{};2:Text(61202a2062202a63)@0-8{}".
 Proof. vm_compute. reflexivity. Qed.
+
+(* FULL STATEMENT (not yet proved for the whole parser; decided on every run by the tree-shape oracle
+   and the model/implementation correspondence):
+     forall cfg src t, has_paragraph cfg -> parse cfg src = inr t -> wf_tree t
+   where wf_tree = final kinds only, Root at the top only, list/item discipline, inline kinds under
+   leaf blocks / items / inline containers only, childless leaves, no empty Text, no adjacent Text.
+
+   PROVED PART (the clean-up pass every tree goes through, for every tree whatsoever): *)
+
+(* after FragmentsJoin no node anywhere in the tree has a delimiter placeholder, an empty Text
+   or two adjacent Text nodes among its children *)
+Theorem C14_fragments_join_partial : forall n, frag_ok (fj_walk n) = true.
+Proof. exact fj_walk_ok. Qed.
+
+(* the pass touches nothing but text: all other nodes stay, in order ... *)
+Theorem C14_join_keeps_others : forall l,
+  filter (fun n => negb (is_text n)) (fj_collapse None l) = filter (fun n => negb (is_text n)) l.
+Proof. intros l. exact (fj_others l None I). Qed.
+
+(* ... and the text itself is preserved *)
+Theorem C14_join_keeps_text : forall l,
+  flat_map content_of (fj_collapse None l) = flat_map content_of l.
+Proof. intros l. exact (fj_text l None I). Qed.
+
+Example C14_nonvacuous :
+  let t := mk KParagraph None [mk (KText (bs "a")) None []; mk (KEmphMarker 42 2 1 true false) None [];
+                               mk (KEmphMarker 95 1 0 true false) None []; mk (KText (bs "b")) None [];
+                               mk (KEm 42) None [mk (KEmphMarker 42 1 1 false true) None []]] in
+  map (fun c => content_of c) (n_children (fj_walk t)) = [bs "a*b"; []] /\ frag_ok (fj_walk t) = true.
+Proof. vm_compute. split; reflexivity. Qed.
+
+Print Assumptions C14_fragments_join_partial.
+Print Assumptions C14_join_keeps_others.
+Print Assumptions C14_join_keeps_text.
